@@ -52,4 +52,21 @@ theorem topoWrites_ok : Facts.topoWrites = [
   "internal/phase5.reduceForward: .To"
 ] := by decide
 
+
+/-- every place where the code looks at (or sets) the direction flags of an edge: reversal itself, the helper edges of a cut long edge,
+    the merge back, the final un-reversal and the copy-out — no layering, ordering or positioning code distinguishes reversed edges -/
+theorem flagUses_ok : Facts.flagUses = [
+  "autog.Layout: .ArrowHeadStart",
+  "internal/graph.Edge.Reverse: .IsReversed",
+  "internal/graph.Edge.Reverse: .IsReversed",
+  "internal/graph.Edge.String: .IsReversed",
+  "internal/phase3.breakEdge: .IsReversed",
+  "internal/phase3.breakEdge: .IsReversed",
+  "internal/phase5.mergeLongEdges: .ArrowHeadStart",
+  "internal/phase5.mergeLongEdges: .IsReversed",
+  "internal/phase5.reduceForward: .ArrowHeadStart",
+  "internal/phase5.reduceForward: .IsReversed",
+  "internal/processor/postprocessor.UnreverseEdges: .IsReversed"
+] := by decide
+
 end Autog.FactsCheck
